@@ -169,6 +169,9 @@ def bounded(b):
                 except Exception as e:
                     bad = "raised %s at t=%d" % (type(e).__name__, t)
                     break
+                if got.ndim != 2 or got.shape[0] < nst:
+                    bad = "clef_map(%d) has %r rows, the part has %d staves (notes or clefs on them)" % (t, got.shape, nst)
+                    break
                 for s in range(1, nst + 1):
                     sc_ = [c for c in clefs if c[1] == s]
                     want = tuple(_latest(sc_, t)[1:]) if sc_ else (s, 6, 0, 0)
